@@ -152,7 +152,23 @@ class C10(Prop):
                             continue
                         self._judge_set(acc, again.schedules, recs, zz, f"direct parse right after the same reply was parsed in {zone if zz == z2 else z2}")
                     clock.set_zone(zone)
-                # a caller may edit what it was handed (days is a plain public set): later parses must not care
+                # a caller clones one schedule with an extra day by editing the set it was handed: the other schedules of the same
+                # listing still carry their own records' days
+                listed = sorted(resp.schedules, key=lambda x_: int(x_.schedule_id))
+                if len(listed) >= 2 and isinstance(listed[0].days, set):
+                    first = listed[0]
+                    from aioswitcher.schedule import Days as _Days
+
+                    extra_day = next((d_ for d_ in _Days if d_ not in first.days), None)
+                    if extra_day is not None:
+                        first.days.add(extra_day)
+                    else:
+                        first.days.discard(_Days.MONDAY)
+                    rest_recs = [rc for rc in recs if str(rc[0]) != first.schedule_id]
+                    rest = {s_ for s_ in resp.schedules if s_.schedule_id != first.schedule_id}
+                    if len({rc[0] for rc in recs}) == len(recs):
+                        self._judge_set(acc, rest, rest_recs, zone, "the siblings of a schedule whose days the caller edited")
+                        acc.count("sibling_checks_after_editing_one_schedule")
                 for sch in resp.schedules:
                     if isinstance(sch.days, set):
                         sch.days.clear()
@@ -264,6 +280,36 @@ class C10(Prop):
         if i % 140 < 2:
             acc.sample({"zone": zone, "virtual_now": now, "utc_offset_s": off, "records_served": [list(x) for x in recs][:3],
                         "round_trips": [(c[0], c[1], c[2], sorted(c[3])) for c in created]})
+
+
+    def thread_pairs(self, ctx):
+        clock.set_zone("Asia/Jerusalem")
+        recs_a = [(k, EVEN_MASKS[(k * 17 + 3) % 128], 1_800_000_000 + k * 3660, 1_800_003_600 + k * 3660) for k in range(8)]
+        recs_b = [(k, EVEN_MASKS[(k * 29 + 40) % 128], 1_790_000_000 + k * 7260, 1_790_001_800 + k * 7260) for k in range(8)]
+        ra = replies.schedules([replies.schedule_record(*x) for x in recs_a])
+        rb = replies.schedules([replies.schedule_record(*x) for x in recs_b])
+
+        def judge(recs):
+            def j(res):
+                if not hasattr(res, "schedules"):
+                    return f"{res!r}"
+                got = {s.schedule_id: s for s in res.schedules}
+                if len(got) != len(recs):
+                    return f"parsed {len(got)} schedules out of a reply with {len(recs)} whole records and distinct slots"
+                for slot, mask, se, ee in recs:
+                    s = got.get(str(slot))
+                    if s is None:
+                        return f"slot {slot} missing"
+                    have = (s.start_time, s.end_time, {d.name for d in s.days})
+                    want = (clock.hhmm_of("Asia/Jerusalem", se), clock.hhmm_of("Asia/Jerusalem", ee), days_of(mask))
+                    if have != want:
+                        return f"slot {slot} parsed as {have}, the record says {want}"
+                return None
+            return j
+
+        cls = self.messages.SwitcherGetSchedulesResponse
+        return [("parse listing A || parse listing B", lambda: cls(ra), lambda: cls(rb), judge(recs_a), judge(recs_b)),
+                ("parse listing A || parse listing A", lambda: cls(ra), lambda: cls(ra), judge(recs_a), judge(recs_a))]
 
 
 PROP = C10()
